@@ -768,12 +768,12 @@ class SgzReader(object):
         trace : numpy.ndarray of float32, shape (n_samples) or (max_sample_id - min_sample_id)
             A single trace, decompressed
         """
-        min_sample_no = self.zslices[0] if min_sample_no is None else min_sample_no
-        max_sample_no = self.zslices[-1] + self.zslices[1] - self.zslices[0] if max_sample_no is None else max_sample_no
-        trace = self.get_trace(index,
-                               self.get_zslice_index(min_sample_no),
-                               self.get_zslice_index(max_sample_no, include_stop=True))
-        return trace
+        # An omitted bound is the end of the trace itself: no coordinate is computed for it, which with a
+        # fractional sample interval would not be found again on the axis
+        min_sample_id = 0 if min_sample_no is None else self.get_zslice_index(min_sample_no)
+        max_sample_id = self.n_samples if max_sample_no is None \
+            else self.get_zslice_index(max_sample_no, include_stop=True)
+        return self.get_trace(index, min_sample_id, max_sample_id)
 
     def get_trace(self, index, min_sample_id=None, max_sample_id=None, override_unstructured_mapping=False):
         """Reads one trace from SGZ file, cropping referenced by sample indexes
